@@ -25,6 +25,7 @@ def main():
     ap.add_argument("--tier", default=os.environ.get("VERIF_TIER", "quick"))
     ap.add_argument("--replay")
     ap.add_argument("--triage", action="store_true", help="development: print failing signatures, never exit 1")
+    ap.add_argument("--emit-known", help="development: write unlisted signatures as candidate entries to this file")
     ap.add_argument("--keep", action="store_true", help="keep intermediate files")
     a = ap.parse_args()
     seed = int(os.environ.get("VERIF_SEED", "0") or 0)
